@@ -433,6 +433,17 @@ Proof.
   apply map_ext. intro m. destruct (mid m =? id); [apply mget_mset_same | reflexivity].
 Qed.
 
+(* reading a group attribute of one of the nine classes, in ANY state (so after any history): the
+   members' current values of the member attribute belonging to that name, in member order *)
+Lemma read_in_any_state c e g a d : In c canonical -> find_descr c a = Some d -> is_members d = false ->
+  step c e g (OGet a) = (g, RVals (map (mget (member_attr a)) g)).
+Proof.
+  intros Ic F M. cbn [step]. rewrite F. unfold find_descr in F. apply find_some in F as [Id En].
+  apply String.eqb_eq in En. subst a.
+  pose proof canonical_wf as W. rewrite forallb_forall in W. specialize (W c Ic). rewrite forallb_forall in W.
+  pose proof (wf_entry_descr d (W d Id) M) as Wd. now destruct (get_in_order d g Wd) as [-> _].
+Qed.
+
 (* ---- observing ------------------------------------------------------------------------------------ *)
 Definition observed_once (m m' : member) : Prop :=
   mobs m' = mobs m + 1 /\ mid m' = mid m /\ mtype m' = mtype m /\ mparent m' = mparent m /\ mstore m' = mstore m.
